@@ -1697,6 +1697,20 @@ func (c *simCtx) mentionsSubject(v ssa.Value, depth int) bool {
 		if x.Call.IsInvoke() {
 			return c.mentionsSubject(x.Call.Value, depth+1)
 		}
+		// a closure that captured the subject (check := func() bool { ... id ... })
+		if mc, ok := resolve(x.Call.Value).(*ssa.MakeClosure); ok {
+			for _, b := range mc.Bindings {
+				if c.mentionsSubject(b, depth+1) {
+					return true
+				}
+			}
+		}
+	case *ssa.MakeClosure:
+		for _, b := range x.Bindings {
+			if c.mentionsSubject(b, depth+1) {
+				return true
+			}
+		}
 	}
 	return false
 }
